@@ -98,19 +98,32 @@ func runC02(r *Report) {
 	}
 
 	// R02g: a slot is released only after its reply was delivered: no send on a result channel is
-	// reachable from FinishResult before the next NextResultCh (the slot and its channel may
+	// in the straight-line code following FinishResult (whether a later loop iteration delivers again is data-dependent and not decided) (the slot and its channel may
 	// already belong to the next caller).
 	nFin := 0
 	for _, fn := range p.Funcs("rueidis.(*pipe).") {
 		for _, s := range CallSites(fn, "iface:rueidis.queue.FinishResult") {
 			nFin++
-			late, at := Reaches(s, func(x Site) bool {
-				sd, ok := x.Instr.(*ssa.Send)
-				return ok && strings.Contains(shortType(sd.Chan.Type()), "RedisResult")
-			}, func(x Site) bool {
-				_, is := CallTo(x.Instr, "iface:rueidis.queue.NextResultCh")
-				return is
-			})
+			// straight-line region after the release: the rest of the block and unconditional successors
+			late := false
+			var at Site
+			blk, from := s.Block, s.Idx+1
+			for hops := 0; hops < 8 && !late; hops++ {
+				for i := from; i < len(blk.Instrs); i++ {
+					if sd, ok := blk.Instrs[i].(*ssa.Send); ok && strings.Contains(shortType(sd.Chan.Type()), "RedisResult") {
+						late, at = true, Site{fn, blk, i, blk.Instrs[i]}
+						break
+					}
+					if _, is := CallTo(blk.Instrs[i], "iface:rueidis.queue.NextResultCh"); is {
+						hops = 99
+						break
+					}
+				}
+				if len(blk.Succs) != 1 || IsLoopHeader(blk.Succs[0]) {
+					break
+				}
+				blk, from = blk.Succs[0], 0
+			}
 			why := "the reply is delivered before the slot is released"
 			if late {
 				why = "after FinishResult released the slot, a reply is still sent on a result channel at " + p.Pos(InstrPos(at.Instr)) + " without a new NextResultCh: the slot (and its channel) may already belong to another caller, who would receive this reply"
